@@ -54,7 +54,7 @@ MANIFEST = {
     "technique": "Lean 4 theorems over an executable loader model; regenerated site inventory and tables; differential inventory rig",
     "design_ref": "5/C20",
 }
-MODULES = ["PrimaiteModel.Props.C20", "PrimaiteModel.Props.C20Office"]
+MODULES = ["PrimaiteModel.Props.C20", "PrimaiteModel.Props.C20Office", "PrimaiteModel.Props.C20Spec"]
 EXE = "drv_c20"
 KEEP = ()  # every mapping is permuted, at every level (F-29, which made `action_probabilities` order-sensitive, is repaired)
 # test assets that are not well-formed scenario files: one needs a plug-in node type, one has `agent_settings:` null
@@ -159,6 +159,11 @@ def check_scenario(cfg: Dict, model_out: Optional[Tuple[str, str]], twice: bool 
         if d != inv:
             oi, od = [l for l in inv if l not in d], [l for l in d if l not in inv]
             fails.append(dict(_classify(oi, od), only_impl=oi[:6], only_declared=od[:6]))
+        if len(model_out) > 2:
+            sp = R.split_inventory(model_out[2])
+            if sp != inv:
+                oi, od = [l for l in inv if l not in sp], [l for l in sp if l not in inv]
+                fails.append(dict(_classify(oi, od), kind="spec-vs-built", only_impl=oi[:6], only_spec=od[:6]))
     return fails, inv
 
 
@@ -493,9 +498,9 @@ def replay(rec: dict) -> bool:
         lake_build([EXE])
     out = None
     try:
-        lines = ["reset"] + R.scenario_lines(cfg) + ["build", "declared"]
+        lines = ["reset"] + R.scenario_lines(cfg) + ["build", "declared", "spec"]
         o = run_driver(EXE, lines)
-        out = (o[-2], o[-1])
+        out = (o[-3], o[-2], o[-1])
     except R.Unmodelled:
         pass
     fails, inv = check_scenario(cfg, out)
@@ -626,7 +631,7 @@ def run(ctx: Ctx):
     spans: Dict[str, Tuple[int, int]] = {}
     for name, cfg, _ in cases:
         try:
-            ls = ["reset"] + R.scenario_lines(cfg) + ["build", "declared"]
+            ls = ["reset"] + R.scenario_lines(cfg) + ["build", "declared", "spec"]
         except R.Unmodelled as u:
             ctx.count("unmodelled:" + str(u).split(" [")[0][:40])
             continue
@@ -652,7 +657,7 @@ def run(ctx: Ctx):
         mo = None
         if name in spans:
             st, ln = spans[name]
-            mo = (out[st + ln - 2], out[st + ln - 1])
+            mo = (out[st + ln - 3], out[st + ln - 2], out[st + ln - 1])
             modelled += 1
             ctx.cov["traces_validated_against_impl"] += 1
         small = kind in ("gen", "matrix", "corpus") or not name.startswith(("shipped:uc7", "scheduled:uc7"))
